@@ -213,7 +213,12 @@ CLAIMED = {
               "composition per volume, COMPOSITION count, finite numbers) are evaluated by the Lean reader on the bytes "
               "of every file produced by flat / universe / lattice / coincident-surface decks under all option sets; "
               "closedness after post-processing is proved (closed_after_post: no UNION/INTE operand of the final dictionary "
-              "is missing, for any dictionary with unique keys that is closed before)."),
+              "is missing, for any dictionary with unique keys that is closed before; closed_end_to_end: the same for the "
+              "dictionary the conversion loop produces, with no hypothesis left). VOLU lines: the reader used on every "
+              "written file recovers from the words of VolumeT4.__str__ (model volLine, compared with the code on random "
+              "volumes) exactly the sorted PLUS and MINUS sets, the operator with its operands, the FICTIVE flag and "
+              "ENDV, with no complaint — declared counts equal the ids that follow, for all sets, operand lists and "
+              "flags (volume_line_roundtrip)."),
         design_ref='§8 C08'),
     'C11': dict(
         technique='Lean 4 proof (structural/fuel induction over expression trees; token/gap invariants through the regex passes of normalize) + model↔code correspondence + Lean spec monitor',
